@@ -14,7 +14,7 @@ def nontrivial(c, tr):
 
 def run(chk, replay=None):
     return connlib.run_property(
-        chk, "C03", connlib.oracle_c03, ["close", "close", "mixed"], 1500, 60000, replay=replay,
+        chk, "C03", connlib.oracle_c03, ["close", "close", "mixed"], 1500, 24000, replay=replay,
         nontrivial=nontrivial, races=True,
         rule="corpus (incl. the F-6 and F-19 witnesses) + random sequences mixing sends (loop/foreign) with shutdown()/forceClose()/forceCloseWithDelay()/peer close in all orders, "
              "backlogs from empty to MBs at the moment of shutdown; shutdown()/forceClose() also issued on real foreign threads cut at their load / store / hand-off "
